@@ -20,11 +20,14 @@ def run(c):
               "get-or-create over 1-4 metrics and 4-40 keys, PutMapping (used/unused keys and ids, ids <= 0), batched delete (present, absent, duplicate ids), "
               "ResetFlood (<=0, 1, around max, ceiling-1, ceiling=10000, ceiling+1, 2x, MaxInt32; the stored flood row is read back after every reset and is "
               "part of the compared observation), by-value/by-id/GetNewMappings reads, orderly restarts (Close + OpenDB on the same files: "
-              "lastMappingIDToInsert starts from 0), state dumps; every 6th case is a pure stream of 60 "
+              "lastMappingIDToInsert starts from 0), park/resume (one get-or-create request is held inside GetOrCreateMapping before its eng.Do via the "
+              "Options.Now seam while other requests are applied, then released; every 6th case walks to the global-budget boundary, parks a request, exhausts "
+              "the global and the metric's budget and resumes), state dumps; every 6th case is a pure stream of 60 "
               "calcBudget + roundTime calls at the boundaries (old around 0/max, unsigned wrap of now-last). Non-trivial = a history with a flood-limit "
               "error after the global budget was exhausted, or with a deletion; distinct by op-sequence hash")
     c.assumptions += [
-        "one model step = one eng.Do callback (see C15); SQLite trusted: UNIQUE/PRIMARY KEY, AUTOINCREMENT never reuses a rowid, INSERT OR REPLACE deletes conflicting rows",
+        "one model step = one eng.Do callback (see C15), and a history is the order in which requests are APPLIED: the global-budget decision is read "
+        "inside that step (park/resume cases check that the code does not decide from a value read at function entry); SQLite trusted: UNIQUE/PRIMARY KEY, AUTOINCREMENT never reuses a rowid, INSERT OR REPLACE deletes conflicting rows",
         "configuration is not an input: stepSec >= 1, budgetBonus >= 0, maxBudget >= 1 (with maxBudget = 0 the first creation of a metric still succeeds and stores -1)",
         "flood bound is read as: creations <= max(maxBudget, reset value) + bonus * elapsed steps, elapsed steps measured by a non-decreasing clock; "
         "for a clock that moves backwards the code's unsigned subtraction refills the budget to maxBudget and the oracle allows exactly that",
@@ -102,6 +105,7 @@ META = {
              "Restart is modelled (reopen: lastMappingIDToInsert := 0, so the first creation after a restart is flood-limited even inside the global budget: "
              "corpus/C19/reopen-drops-global-budget-exemption.ops) and exercised by the correspondence. flood_bound_partial (single-row bucket) is kept. "
              "Oracle on the stored row after every reset: reset-budget-above-ceiling / reset-budget-above-reported; thorough tier additionally runs one case "
-             "with a MaxInt32 reset followed by ceiling+50 real creations (exactly 10000 may succeed). Not modelled: int32 truncation of ids >= 2^31, GetNewMappings byte limit, crashes (C17)."),
+             "with a MaxInt32 reset followed by ceiling+50 real creations (exactly 10000 may succeed). The global-budget decision point is explicit: getOrCreate takes no pre-read argument; getOrCreateStale (decision from an "
+             "entry-time snapshot, seeded C19-r5-1) has decide witnesses of 3 creations against a budget of 1. Not modelled: int32 truncation of ids >= 2^31, GetNewMappings byte limit, crashes (C17)."),
     "design_ref": "DESIGN.md §6 C19",
 }
